@@ -317,7 +317,13 @@ func collectExprRel(expr Expr) []UniRel {
 			return colB(bl)
 		case ReturnableExpr_RMatchExpr:
 			me := _v14.Value
-			return frt.Pipe(frt.Pipe(frt.Pipe(mrsToBlocks(me.Rules), (func(_r0 []Block) [][]UniRel { return slice.Map(colB, _r0) })), slice.Concat), (func(_r0 []UniRel) []UniRel { return slice.Append(colE(me.Target), _r0) }))
+			blocks := mrsToBlocks(me.Rules)
+			btypes := slice.Map((func(_r0 Block) FType { return blockToType(ExprToType, _r0) }), blocks)
+			ftype := slice.Head(btypes)
+			same := frt.Pipe(frt.Pipe(slice.Tail(btypes), (func(_r0 []FType) [][]UniRel {
+				return slice.Map((func(_r0 FType) []UniRel { return unifyType(ftype, _r0) }), _r0)
+			})), slice.Concat)
+			return frt.Pipe(frt.Pipe(frt.Pipe(frt.Pipe(blocks, (func(_r0 []Block) [][]UniRel { return slice.Map(colB, _r0) })), slice.Concat), (func(_r0 []UniRel) []UniRel { return slice.Append(colE(me.Target), _r0) })), (func(_r0 []UniRel) []UniRel { return slice.Append(same, _r0) }))
 		default:
 			panic("Union pattern fail. Never reached here.")
 		}
